@@ -174,5 +174,6 @@ def run(chk, tier):
     # reassembly runs read_pdu on whatever prefix the transport has delivered so far: every cut must come back as "incomplete"
     from . import shared
     shared.parser_availability(chk, fx, "reassembly-availability")
+    shared.guard_tightness(chk, fx, "fragment-guards-exact")
     shared.send_pdata_plumbing(chk, fx, "writer-max-from-peer")
     chk.undecided.append("fragmentation/reassembly under arbitrary chunk sizes and transport schedules (needs execution or a model checker)")
